@@ -61,6 +61,25 @@ def gen_cases(ctx, env, n):
             st, tt = (a, b) if rng.random() < 0.5 else (b, a)
             cls = "all-disconnected"
             shape = (d, exp, other in [f for f, _ in FRESH])
+        elif r < 0.875:
+            # a remainder without a dimension: one side carries, besides what the other side has, a base unit of a derived
+            # dimension that is connected to nothing (an energy, a force) divided by base units that multiply out to that
+            # very dimension.  The dimensions of the two sides agree, one side is used up completely by the other, and
+            # what is left over is not nothing: zqc07d / (kg m^2 / s^2) is no number anybody declared
+            name, d = rng.choice([f for f in FRESH if f[1] in ("energy", "force")])
+            in_base = (["mul", ["u", "kilogram"], ["div", ["pow", ["u", "meter"], 2], ["pow", ["u", "second"], 2]]] if d == "energy"
+                       else ["mul", ["u", "kilogram"], ["div", ["u", "meter"], ["pow", ["u", "second"], 2]]])
+            if rng.random() < 0.4:
+                # the same with the user's own base units standing in for the metre
+                own = rng.choice(fresh_by_dim["length"])
+                in_base = (["mul", ["u", "kilogram"], ["div", ["pow", ["u", own], 2], ["pow", ["u", "second"], 2]]] if d == "energy"
+                           else ["mul", ["u", "kilogram"], ["div", ["u", own], ["pow", ["u", "second"], 2]]])
+            remainder = ["div", ["u", name], in_base] if rng.random() < 0.5 else ["div", in_base, ["u", name]]
+            common = rng.choice([["u", "meter"], ["u", "second"], ["u", "one"], ["u", rng.choice(fresh_by_dim["mass"])], ["div", ["u", "meter"], ["u", "second"]], ["u", "newton"]])
+            a, b = common, ["mul", common, remainder]
+            st, tt = (a, b) if rng.random() < 0.5 else (b, a)
+            cls = "all-disconnected"
+            shape = ("remainder-without-a-dimension", d, str(common)[:20], st is a)
         elif r < 0.9:
             # product-defined units of the user's own, one declared with a Decimal number and one with a float (the
             # registry then holds ratios of both kinds), meeting on one side of a conversion that a third, unconnected
